@@ -3,8 +3,9 @@
    check_inner, om_check_geom exit status, om_assemble -HM refusal): theorems for an ARBITRARY triangle-triangle
    predicate [isect] and point-in-interface predicate [inside].
    Predicate (Geom/TriTri.v, transcription of Triangle_triangle_intersection.h): the two plane rejections are proved
-   sound; symmetry and agreement with exact geometry elsewhere are validated against an exact oracle by the check
-   (not theorems). *)
+   sound (with the relative snapping of fix c0ef322); symmetry in the arguments is refuted on a non-generic pair (tritri_symmetry_refuted)
+   and, like the agreement with exact geometry on the interval-overlap and coplanar branches, only validated on pairs
+   in generic position by the check (not theorems). *)
 From Coq Require Import Reals QArith List Bool.
 From OM Require Import Base.Ops Geom.V3Q Geom.V3R Geom.TriTri Geom.TriTriProofs Geom.Checks Geom.ChecksProofs Geom.RunC12.
 Import ListNotations.
@@ -100,6 +101,20 @@ Theorem plane_rejection_sound_other_side : forall p1 q1 r1 p2 q2 r2 dp2 dq2 dr2,
   tri_tri_overlap_3d Rops p1 q1 r1 p2 q2 r2 = false /\ disjoint_tri p1 q1 r1 p2 q2 r2.
 Proof. exact plane_rejection_2. Qed.
 Print Assumptions plane_rejection_sound_other_side.
+
+
+(* Symmetry in the arguments is FALSE for the transcribed predicate (hence for Triangle::intersects, which agrees with
+   it on this input): two triangles of non-zero area, disjoint (exact computation in the check), in non-generic position
+   (the vertex (1,0,8) of the second is collinear with the edge (1,0,13)-(1,0,9) of the first): intersects(T1,T2) = true,
+   intersects(T2,T1) = false.  Outside C12's quantifier (no clearance); replayed on the code every run (known finding). *)
+Definition asym_T1 : @tri3 Q := ((1, 0, 13), (9, 2, -7), (1, 0, 9))%Q.
+Definition asym_T2 : @tri3 Q := ((1, 0, 8), (9, -2, -6), (5, -1, 9))%Q.
+Definition area_vec (t : @tri3 Q) : @vec Q := vcross Qops (vsub Qops (get3 t 1) (get3 t 0)) (vsub Qops (get3 t 2) (get3 t 0)).
+Theorem tritri_symmetry_refuted :
+  tri_intersects Qops asym_T1 asym_T2 = true /\ tri_intersects Qops asym_T2 asym_T1 = false /\
+  area_vec asym_T1 <> (0, 0, 0)%Q /\ area_vec asym_T2 <> (0, 0, 0)%Q.
+Proof. vm_compute. repeat split; discriminate. Qed.
+Print Assumptions tritri_symmetry_refuted.
 
 (* hypotheses are satisfiable: a clean two-mesh nested model passes, the tool exits 0 *)
 Example clean_example :
